@@ -12,21 +12,92 @@ HARNESS = os.path.join(VERIF, "harness")
 NCPU = os.cpu_count() or 4
 
 
+def _norm_outside(t):
+    """remove the blank after << and before >> outside string literals"""
+    out, i, n, instr = [], 0, len(t), False
+    while i < n:
+        c = t[i]
+        if instr:
+            out.append(c)
+            if c == "\\" and i + 1 < n:
+                out.append(t[i + 1])
+                i += 1
+            elif c == '"':
+                instr = False
+        elif c == '"':
+            instr = True
+            out.append(c)
+        elif t.startswith("<< ", i):
+            out.append("<<")
+            i += 2
+        elif t.startswith(" >>", i):
+            out.append(">>")
+            i += 2
+        else:
+            out.append(c)
+        i += 1
+    return "".join(out)
+
+
 def join_wrapped(out):
     """TLC pretty-prints a printed value that is longer than a line over several lines ('<< "BAD",' / '   13,' / ...).
     Values that start a line with '<<' and whose tuple brackets are not balanced on that line are joined into one line and
     normalised to the one-line spelling ('<<"BAD", 13, ...>>'), so that line-based parsers see every printed value."""
+    def depth(text):
+        """tuple brackets still open at the end of text (brackets inside string literals do not count)"""
+        d, i, n, instr = 0, 0, len(text), False
+        while i < n:
+            c = text[i]
+            if instr:
+                if c == "\\":
+                    i += 1
+                elif c == '"':
+                    instr = False
+            elif c == '"':
+                instr = True
+            elif text.startswith("<<", i):
+                d += 1
+                i += 1
+            elif text.startswith(">>", i):
+                d -= 1
+                i += 1
+            i += 1
+        return d
+
+    def norm(text):
+        """one-line spelling: no blanks after << or before >>, single blanks elsewhere (outside string literals)"""
+        out, i, n, instr = [], 0, len(text), False
+        while i < n:
+            c = text[i]
+            if instr:
+                out.append(c)
+                if c == "\\" and i + 1 < n:
+                    out.append(text[i + 1])
+                    i += 1
+                elif c == '"':
+                    instr = False
+            elif c == '"':
+                instr = True
+                out.append(c)
+            elif c.isspace():
+                if out and out[-1] != " ":
+                    out.append(" ")
+            else:
+                out.append(c)
+            i += 1
+        return _norm_outside("".join(out))
+
     lines, buf = [], None
     for line in out.split("\n"):
         if buf is None:
-            if line.startswith("<<") and line.count("<<") > line.count(">>"):
+            if line.startswith("<<") and depth(line) > 0:
                 buf = line
             else:
                 lines.append(line)
             continue
         buf += " " + line.strip()
-        if buf.count("<<") <= buf.count(">>"):
-            lines.append(re.sub(r"\s+>>", ">>", re.sub(r"<<\s+", "<<", re.sub(r"\s+", " ", buf))))
+        if depth(buf) <= 0:
+            lines.append(norm(buf))
             buf = None
     if buf is not None:
         lines.append(buf)
